@@ -1524,7 +1524,7 @@ def replay(ctx, path):
             v = vec(spec_unjson(rep["p"]))
             d, m = float(Rg.distanceTo(v)), py_mem3(Rg, v)
             print("distanceTo", tuple(v), "=", d, " member:", m)
-            failing = (m and d > 1e-6) or (not m and d <= 1e-6 and kind_of(spec) != "foot")
+            failing = (m and abs(d) > 1e-6) or (not m and d <= 1e-6 and (kind_of(spec) != "foot" or d < -1e-6))
         elif kind == "aabb":
             bb = Rg.AABB
             print("AABB =", bb, " member:", rep.get("member"))
